@@ -454,10 +454,13 @@ func (k Keeper) LiquidateForSurplusAndDebt(ctx sdk.Context) error {
 	for _, data := range auctionMapData {
 		killSwitchParams, _ := k.esm.GetKillSwitchData(ctx, data.AppId)
 		if !data.IsAuctionActive && !killSwitchParams.BreakerEnable {
-			err := k.CheckStatsForSurplusAndDebt(ctx, data.AppId, data.AssetId)
-			if err != nil {
-				return err
-			}
+			// one (app, asset) at a time, all-or-nothing: the surplus branch moves the lot out of
+			// the collector before the auction is created, and a failure for one app must neither
+			// keep that transfer nor stop the remaining apps from being processed
+			appID, assetID := data.AppId, data.AssetId
+			_ = utils.ApplyFuncIfNoError(ctx, func(ctx sdk.Context) error {
+				return k.CheckStatsForSurplusAndDebt(ctx, appID, assetID)
+			})
 		}
 
 	}
